@@ -28,11 +28,17 @@ type c35Conn struct {
 	credit   *uint64       // ghost: total window ever granted to the writer (nil: not tracked)
 	sent     chan struct{} // native only: one token per packet (environment goroutine sync)
 	werr     error
+	limit    int  // > 0: at most this many packets are accepted
+	flooded  bool // a packet beyond limit was written (the writer is told io.ErrShortWrite)
 }
 
 func (c *c35Conn) writePacket(p []byte) error {
 	if c.werr != nil {
 		return c.werr
+	}
+	if c.limit > 0 && len(c.pkts) >= c.limit {
+		c.flooded = true
+		return io.ErrShortWrite
 	}
 	cp := make([]byte, len(p))
 	copy(cp, p)
@@ -182,7 +188,7 @@ func Verif_C35_MinPayloadSize() {
 func c35Write(maxData int) {
 	n := verifrt.Choose(0, maxData)
 	data := verifrt.Bytes(n)
-	conn := &c35Conn{}
+	conn := &c35Conn{limit: n + 1}
 	m := c35Mux(conn)
 	ch := m.newChannel("c35", channelOutbound, nil)
 	ch.decided = true
@@ -200,6 +206,7 @@ func c35Write(maxData int) {
 
 	nw, err := ch.WriteExtended(data, ext)
 
+	verifrt.Assert(!conn.flooded, "never more packets than data bytes (every packet makes progress)")
 	hl := 9
 	if ext > 0 {
 		hl = 13
@@ -476,9 +483,15 @@ type c35Pipe struct {
 	errs  int
 	sizes []int
 	sent  chan struct{}
+	limit int // > 0: at most this many packets are accepted
+	flood bool
 }
 
 func (c *c35Pipe) writePacket(p []byte) error {
+	if c.limit > 0 && c.n >= c.limit {
+		c.flood = true
+		return io.ErrShortWrite
+	}
 	c.n++
 	c.sizes = append(c.sizes, len(p))
 	if err := c.peer.handlePacket(append([]byte{}, p...)); err != nil {
@@ -513,6 +526,7 @@ func Verif_C35_EndToEnd() {
 	S := mA.newChannel("c35", channelOutbound, nil)
 	R := mB.newChannel("c35", channelInbound, nil)
 	toR.peer, toS.peer = R, S
+	toR.limit = n + 1
 	S.decided, R.decided = true, true
 	S.remoteId, R.remoteId = R.localId, S.localId
 	mp := verifrt.U32()
@@ -545,6 +559,7 @@ func Verif_C35_EndToEnd() {
 
 	nw, err := S.WriteExtended(data, code)
 
+	verifrt.Assert(!toR.flood, "never more packets than data bytes (every packet makes progress)")
 	verifrt.Assert(err == nil && nw == n, "sender writes all data")
 	verifrt.Assert(toR.errs == 0, "compliant receiver never reports a window / size violation")
 	verifrt.Assert(toS.errs == 0, "sender accepts every window adjust")
